@@ -19,6 +19,9 @@ func stringify(v *Val, inProcess util.PtrSet) string {
 			return fmt.Sprintf("recursive-val %s@%p", v.Type, v)
 		} else {
 			inProcess.Add(v)
+			// only a value still being printed is recursive; the same value may
+			// legitimately occur several times, e.g. in [xs, xs]
+			defer inProcess.Remove(v)
 		}
 	}
 
